@@ -896,7 +896,9 @@ class RTCSctpTransport(AsyncIOEventEmitter):
         # is this an init?
         init_chunk = len([x for x in chunks if isinstance(x, InitChunk)])
         if init_chunk:
-            assert len(chunks) == 1
+            # an INIT chunk must not be bundled with any other chunk
+            if len(chunks) != 1:
+                return
             expected_tag = 0
         else:
             expected_tag = self._local_verification_tag
@@ -1038,7 +1040,12 @@ class RTCSctpTransport(AsyncIOEventEmitter):
             for param in chunk.params:
                 cls = RECONFIG_PARAM_TYPES.get(param[0])
                 if cls is not None:
-                    await self._receive_reconfig_param(cls.parse(param[1]))
+                    try:
+                        reconfig_param = cls.parse(param[1])
+                    except struct_error:
+                        # the parameter is too short, ignore it
+                        continue
+                    await self._receive_reconfig_param(reconfig_param)
 
         # server
         elif isinstance(chunk, InitChunk) and self.is_server:
